@@ -8,12 +8,13 @@ LEVEL_NOTE = ("Coq theorem C13_holds (every M >= 2, every healthy store, every s
               "store stays healthy, the next run uses the same slot and every other retained run is untouched; the checkpoint is not among a run's effects. Partial: "
               "file-system atomicity (rename(2), invisibility of a killed process's partial writes to other files) is assumed. Tied to the code by killing the real "
               "binary at every guarded point (verif::point abort) and by SIGKILL at random times while children run, then checking result show, log show, checkpoint show, "
-              "the on-disk state against the model, and that a fresh run succeeds.")
+              "the on-disk state against the model, and that a fresh run succeeds; and, without any hook, by killing the run (strace signal injection) at the k-th "
+              "rename / fsync / mkdir / unlinkat / openat / write call of each of its threads for every k until a run gets through (about 70 crash points per history).")
 TRUSTED = ["Coq 8.16.1 kernel; no axioms", "POSIX rename is atomic; a killed process's partial writes to a new file are invisible to readers of other files",
-           "hooks: verif::point call sites (guarded) and the harness's SIGKILL timing", "modelled, not verified: the Rust source"]
+           "hooks: verif::point call sites (guarded) and the harness's SIGKILL timing", "strace 6.1 (-f -b execve -e inject=<call>:signal=SIGKILL:when=k; counts are per call name and thread); skipped and counted when ptrace is unavailable", "modelled, not verified: the Rust source"]
 RULE = ("M in {2,3} with 1..M+1 completed runs, and M in {10,11} (thorough: 10,11,12,20) with exactly M completed runs so that the crash hits the wrap-around from slot M to slot 1; a checkpoint, then one run killed at each guarded point (slot set-up, before/after the result file, inside the pointer save, "
         "during execution between compressor shutdown messages) or by SIGKILL after a random delay while children sleep; non-trivial = a completed run existed before the crash; "
-        "distinct by (M, history length, crash point)")
+        "plus one syscall-level crash sweep per run of the check (thorough: four); distinct by (M, history length, crash point)")
 
 CFG = {"targets": [{"path": "libs/a"}, {"path": "libs/b", "uses": ["libs/a"]}, {"path": "app", "uses": ["libs/b"]}]}
 POINTS = ["after_lock_run", "run_after_slot_setup", "compressor_between_shutdowns", "compressor_before_join", "run_before_store_result",
@@ -122,6 +123,79 @@ def scenario(ctx, rng, M, n_done, crash):
     finally:
         rr.close()
 
+import shutil
+STRACE = shutil.which("strace")
+FILE_CALLS = "%file,fsync,fdatasync,ftruncate"
+# strace counts `when=k` per system call NAME (and per thread), so each name is swept on its own
+SWEEP_CALLS = ["rename", "renameat2", "fsync", "fdatasync", "ftruncate", "mkdir", "mkdirat", "rmdir", "unlink", "unlinkat", "openat", "write"]
+
+def syscall_sweep(ctx, rng, M, n_done, step=1, cap=80):
+    """Crash points without hooks: the run is killed (SIGKILL, injected by strace) at the k-th call of one file-system system call (rename,
+    openat, mkdir, unlinkat, fsync, write, ...) by one of its threads, for every such call name and k = 1, 2, 3, ... until a run gets through.  After every such crash: result show, log show and the checkpoint are what
+    they were, the on-disk state is one the model allows, and (every few k) a fresh run succeeds."""
+    quick_write_skip = ctx.quick()
+    if not STRACE:
+        ctx.count("strace_unavailable"); return
+    rr = runscen.RunRepo(ctx, CFG, M=M, commands=["build", "test"])
+    ids, recs, last_doc, last_no = {}, [], None, None
+    try:
+        rc, cp0, _, _ = vlib.monorail(rr.repo, "checkpoint", "update")
+        def completed_run(*args):
+            nonlocal last_doc, last_no
+            rc, out, err, raw = rr.run(*args)
+            if rc != 0 or out is None: return False
+            last_doc, last_no = out, rr.run_no
+            obs, slots, ptr = observe(rr, ids, M); recs.append([obs[1][ptr][0], obs[1][ptr][1][0]])
+            return True
+        for _ in range(n_done):
+            if not completed_run("-c", *rng.sample(["build", "test"], rng.randint(1, 2))):
+                ctx.record({"sweep": "syscall", "M": M}, True, False, False, False, detail={"what": "set-up run failed"}); return
+        rc, cp_before, _, _ = vlib.monorail(rr.repo, "checkpoint", "show")
+        killed_n, bad, per_name = 0, [], {}
+        for name, k in ((nm, kk) for nm in SWEEP_CALLS for kk in range(1, cap + 1)):
+            if per_name.get(name, {}).get("done") or len(bad) >= 3: continue
+            st_ = per_name.setdefault(name, {"through": 0, "killed": 0, "done": False})
+            if name == "write" and quick_write_skip and k % 2 == 0: continue
+            rr.run_no += 1; rr.clear_traces()
+            env = dict(os.environ); env.update(vlib.GIT_ENV); env.update(rr.env())
+            p = subprocess.run([STRACE, "-f", "-b", "execve", "-o", "/dev/null", "-e", "trace=" + name, "-e", "inject=%s:signal=SIGKILL:when=%d" % (name, k),
+                                vlib.BIN_MONORAIL, "-f", os.path.join(rr.repo, "Monorail.json"), "run", "-c", "build", "test"], cwd=rr.repo, env=env, capture_output=True, timeout=120)
+            if p.returncode in (137, -9):
+                killed_n += 1; st_["through"] = 0; st_["killed"] += 1
+                time.sleep(0.05)
+                obs, slots, ptr = observe(rr, ids, M)
+                v = ctx.model.call("crash", M, recs, [[], 0], obs)
+                rc2, shown, err2, _ = vlib.monorail(rr.repo, "result", "show")
+                ok_show = (rc2 == 0 and runscen.strip_result(shown) == runscen.strip_result(last_doc)) if last_doc is not None else rc2 != 0
+                rcl, _, _, rawl = vlib.monorail(rr.repo, "log", "show", "--stdout", "--stderr")
+                nums = set(int(x) for x in re.findall(rb"^run=(\d+) ", rawl.stdout, flags=re.M))
+                ok_log = (rcl == 0 and nums <= {last_no}) if last_doc is not None else rcl != 0
+                rc3, cp_after, _, _ = vlib.monorail(rr.repo, "checkpoint", "show")
+                ok_cp = cp_after is not None and cp_before is not None and cp_after.get("checkpoint") == cp_before.get("checkpoint")
+                ok = bool(v[3]) and ok_show and ok_log and ok_cp
+                if not (ok and bool(v[2])):
+                    bad.append({"call": name, "k": k, "state_ok": bool(v[3]), "model_agrees": bool(v[2]), "ok_show": ok_show, "ok_log": ok_log, "ok_cp": ok_cp, "pointer": ptr})
+                if killed_n % 8 == 0 and not completed_run("-c", "build"):
+                    bad.append({"call": name, "k": k, "what": "the run after the crash failed"})
+            elif p.returncode in (0, 1):
+                st_["through"] += 1
+                if st_["through"] >= 2 or st_["killed"] == 0: st_["done"] = True      # no thread makes that many calls of this name
+                try: last_doc = json.loads(p.stdout.decode().strip().splitlines()[-1]); last_no = rr.run_no
+                except Exception: pass
+                obs, slots, ptr = observe(rr, ids, M); recs.append([obs[1][ptr][0], obs[1][ptr][1][0]])
+            else:
+                # strace could not trace (no ptrace permission): nothing learnt
+                ctx.count("strace_unusable"); ctx.notes.append("strace injection unusable: rc=%s %s" % (p.returncode, p.stderr.decode("utf-8", "replace")[-120:])); return
+        ctx.count("syscall_crash_points", killed_n)
+        for nm, st_ in per_name.items():
+            if st_["killed"]: ctx.count("crash_points_at_" + nm, st_["killed"])
+        ok = not bad
+        ctx.record({"sweep": "syscall", "M": M, "completed_runs": n_done, "step": step}, True, ok and all(b.get("model_agrees", True) for b in bad), ok, killed_n > 0,
+                   sample={"crash_points_tried": killed_n, "per_call": {nm: st_["killed"] for nm, st_ in per_name.items() if st_["killed"]}, "M": M},
+                   detail={"what": "SIGKILL on entry to the k-th file-system call of a thread of `run`", "crash_points_tried": killed_n, "failures": bad})
+    finally:
+        rr.close()
+
 def run(ctx, scale):
     import random
     rng = ctx.rng
@@ -136,6 +210,9 @@ def run(ctx, scale):
         scenario(ctx, random.Random(rng.getrandbits(32)), M, M, crash)
     # three-digit retention (no wrap-around in reach: the point is the slot naming and the model's range)
     scenario(ctx, random.Random(rng.getrandbits(32)), 100, 2, "run_before_store_result")
+    # every file-system call of the run as a crash point (strace injection; no hooks involved)
+    for M, n_done in ([(2, 2)] if ctx.quick() else [(2, 1), (2, 2), (3, 4), (10, 10)]) * scale:
+        syscall_sweep(ctx, random.Random(rng.getrandbits(32)), M, n_done)
     # one history with no completed run at all
     scenario(ctx, random.Random(rng.getrandbits(32)), 2, 0, "run_save_after_truncate")
     scenario(ctx, random.Random(rng.getrandbits(32)), 2, 0, "run_after_slot_setup")
@@ -143,5 +220,8 @@ def run(ctx, scale):
 def replay(ctx, case):
     import random
     c = case.get("case", case)
+    if c.get("sweep") == "syscall":
+        syscall_sweep(ctx, random.Random(ctx.seed), c.get("M", 2), c.get("completed_runs", 2), c.get("step", 1))
+        return {"spec_failures": [d for _, d in ctx.spec_failures][:3], "disagreements": [d for _, d in ctx.tie_breaks][:3]}
     scenario(ctx, random.Random(ctx.seed), c["M"], c["completed_runs"], c["crash"])
     return {"spec_failures": [d for _, d in ctx.spec_failures][:3], "disagreements": [d for _, d in ctx.tie_breaks][:3]}
